@@ -44,6 +44,7 @@ def _case(draw):
     case["tower"] = draw(gen.tower(case))
     # single precision rounds the stored result, not the operator: linearity then holds to storage rounding
     case["precision"] = draw(st.sampled_from(["double", "double", "double", "single"]))
+    case["bg_float32"] = draw(st.integers(0, 3)) == 0
     if case["precision"] == "single" and draw(st.integers(0, 2)) > 0:
         # no background: a large offset would dominate the storage rounding and hide everything else
         case["c1"], case["c2"] = 0.0, 0.0
@@ -60,6 +61,12 @@ def check_case(case):
     q1 = np.asarray(case["q1"], float)
     q2 = np.asarray(case["q2"], float)
     a, b, c1, c2 = case["a"], case["b"], case["c1"], case["c2"]
+    t1, t2 = c1, c2  # the objects handed to the solver
+    if case.get("bg_float32"):
+        # the background as an element of a single-precision record (an np.float32 scalar): the value it has IS the
+        # background; all arithmetic of the oracle is done on that value as a Python float
+        t1, t2 = np.float32(c1), np.float32(c2)
+        c1, c2 = float(t1), float(t2)
     dom = gen.domain_of(case)
     lv = case["levels"]
     kw = dict(modes=gen.modes_arg(case["modes"]), halo=case["halo"]["value"], precision=case.get("precision", "double"),
@@ -70,6 +77,8 @@ def check_case(case):
     rel = tol.rel_tol(logG, single)
     TINY = 1e-30 if single else 1e-290  # float32 leaves its normal range at 1.2e-38
     out.label(case.get("precision", "double"))
+    if case.get("bg_float32"):
+        out.label("background-np.float32")
     out.label("analytic" if case["analytic"] else "numerical", f"prof={case['prof']['kind']}",
               f"halo={case['halo']['kind']}", f"levels={len(lv)}")
 
@@ -82,8 +91,8 @@ def check_case(case):
     sut.S(q2 + 1.0, z, prof, dom, lv, srf_bg_conc=7.0, **dict(kw, modes=(512, 512)))
     f1s, c1s = tol.natural_scales(q1, z, prof, c1)
     f2s, c2s = tol.natural_scales(q2, z, prof, c2)
-    C1, F1 = run(q1, c1)
-    C2, F2 = run(q2, c2)
+    C1, F1 = run(q1, t1)
+    C2, F2 = run(q2, t2)
     C12, F12 = run(a * q1 + b * q2, a * c1 + b * c2)
     for name, X1, X2, X12 in (("conc", C1, C2, C12), ("flux", F1, F2, F12)):
         s1, s2 = (c1s, c2s) if name == "conc" else (f1s, f2s)
